@@ -31,11 +31,12 @@ FUNCTIONS = [
 ]
 BOUNDS = {
     "values": "n, m: all ints (0..3 for bit operators, where CrossHair forks per bit); s, t: all strings of <= 2 characters; b: both booleans; o: None or any int",
+    "typed programs": "61 helper / comparison / membership programs over a record with ipaddress (v4, v6), ipnetwork, uri, path, string[], bytes, float, command, filesize fields x 2 engines",
     "programs": "quick: every predicate with operands of depth <= 1 (spec/grammar.py) + 60 seeded and/or/not combinations, x 2 engines; "
     "thorough: operands of depth <= 2 + 1500 seeded combinations",
 }
 STUBS = ["field values are injected with object.__setattr__ after normal construction (varint/string/boolean define no operators of their own: checked at run time)"]
-OUTSIDE = ["floats / true division, str.lower/upper on symbolic text, int->str (explored as hunt-only)", "identity 'is' on non-None operands", "records with datetime, path, digest fields"]
+OUTSIDE = ["values of the non-primitive field types other than the fixed representatives of the typed family", "floats / true division, str.lower/upper on symbolic text, int->str (explored as hunt-only)", "identity 'is' on non-None operands", "records with datetime, path, digest fields"]
 ASSUMPTIONS = [
     "the meaning of a program is plain Python evaluation over the field values with the documented helper semantics (spec/selector_ref.py)",
     "a case counts only when every sub-expression is defined (evaluates without exception) in plain Python",
@@ -130,6 +131,63 @@ def diff(expr: str, engine: str, mode: str = "equal", small: bool = False, strle
     return check
 
 
+TYPED_FIELDS = [("net.ipaddress", "ip"), ("net.ipnetwork", "net"), ("uri", "u"), ("path", "p"), ("string", "s"), ("varint", "n"), ("string[]", "tags"), ("bytes", "by"), ("float", "f"), ("command", "cmd"),
+                ("net.ipaddress", "ip6"), ("filesize", "fs")]
+TYPED_PROGRAMS = [
+    "field_equals(r, ['ip'], ['1.2.3.4'])", "field_equals(r, ['ip'], ['1.2.3.4'], nocase=False)", "field_equals(r, ['ip', 's'], ['9.9.9.9', '1.2.3.4'])", "field_equals(r, ['ip'], ['1.2.3.5'])",
+    "field_equals(r, ['ip6'], ['::1'])", "field_equals(r, ['ip6'], ['0:0:0:0:0:0:0:1'])", "field_equals(r, ['net'], ['10.0.0.0/8'])", "field_equals(r, ['net', 'ip'], ['10.0.0.0/255.0.0.0'], nocase=False)",
+    "field_equals(r, ['u'], ['HTTP://X/y'])", "field_equals(r, ['u'], ['HTTP://X/y'], nocase=False)", "field_equals(r, ['p'], ['/a/b'], nocase=False)", "field_equals(r, ['n', 's'], [3, 'a'], nocase=False)",
+    "field_equals(r, ['s', 'u'], ['a', 'ab'], nocase=False)", "field_equals(r, ['fs'], [10], nocase=False)", "field_equals(r, ['cmd'], ['ls -l'], nocase=False)", "field_equals(r, ['tags'], [['a', 'b']], nocase=False)",
+    "field_contains(r, ['u'], ['x/'], nocase=False)", "field_contains(r, ['u', 's'], ['a'], nocase=False)", "field_contains(r, ['tags'], ['a'], nocase=False)", "field_contains(r, ['tags', 's'], ['b', 'zz'], nocase=False)",
+    "field_regex(r, ['u'], 'ht+p')", "field_regex(r, ['s', 'u'], '^a')", "field_regex(r, ['u'], 'y$')",
+    "r.ip == '1.2.3.4'", "r.ip != '1.2.3.4'", "'1.2.3.4' == r.ip", "r.ip in net.ipnetwork('1.0.0.0/8')", "r.ip in net.ipnetwork('10.0.0.0/8')", "r.ip in r.net", "r.ip6 in net.ipnetwork('::/0')",
+    "r.ip6 in net.ipnetwork('0.0.0.0/0')", "r.net == '10.0.0.0/8'", "'10.1.0.0/16' in r.net", "'11.0.0.0/16' in r.net", "r.ip == net.ipaddress('1.2.3.4')", "r.ip6 == '::1'", "r.ip6 == 1", "r.ip == 16909060",
+    "r.u == 'http://x/y'", "r.u == r.s + 'ttp://x/y'", "r.p == '/a/b'", "r.p != '/a/b/'", "'a' in r.tags", "r.s in r.tags", "r.tags == ['a', 'b']", "r.tags + [r.s] == ['a', 'b', 'a']", "r.by == b'x'", "r.f > 1",
+    "r.f * 2 == 3", "r.fs == 10", "r.fs + r.n > 10", "r.cmd == 'ls -l'", "r.cmd != r.s", "r.ip in [r.fs, '1.2.3.4']", "r.ip not in ['1.2.3.4']", "r.n in [r.fs, 3]", "any(x == r.ip for x in ['1.2.3.4', r.fs])",
+    "all(x in r.net for x in ['10.0.0.1', r.ip])", "any(x in r.net for x in [r.ip, '10.2.3.4'])", "r.u in ['http://x/y'] and r.ip == '1.2.3.4'", "name(r) == 'test/typed' and r.ip6 != r.ip",
+]
+
+
+def typed_values(s, n):
+    import flow.record.fieldtypes as FT
+
+    return {"ip": FT.net.ipaddress("1.2.3.4"), "net": FT.net.ipnetwork("10.0.0.0/8"), "u": FT.uri("http://x/y"), "p": FT.path.from_posix("/a/b"), "s": s, "n": n, "tags": ["a", "b"], "by": b"x", "f": 1.5,
+            "cmd": FT.command.from_posix("ls -l"), "ip6": FT.net.ipaddress("::1"), "fs": FT.filesize(10)}
+
+
+def typed_diff(expr: str, engine: str):
+    """Differential over a record with fields of the non-primitive field types (concrete typed values; one text and one integer field
+    symbolic): the engine's verdict equals plain Python evaluation over the same field values with the reference helpers."""
+    from flow.record import RecordDescriptor
+    from flow.record.selector import CompiledSelector, Selector
+
+    D = RecordDescriptor("test/typed", TYPED_FIELDS)
+    code, subs = selector_ref.compile_ref(expr)
+    sel = Selector(expr) if engine == "i" else CompiledSelector(expr)
+    base = typed_values("", 0)
+    proto = D(*[base[k] for _, k in TYPED_FIELDS], _generated=1)
+
+    def check(s: str, n: int) -> bool:
+        """
+        post: _
+        """
+        if len(s) > 2:
+            return True
+        vals = dict(base)
+        vals["s"] = s
+        vals["n"] = n
+        ns = selector_ref.namespace(vals, TYPED_FIELDS, "test/typed")
+        defined, exp = selector_ref.evaluate(code, subs, ns)
+        if not defined:
+            return True
+        rec = proto._replace()
+        object.__setattr__(rec, "s", s)
+        object.__setattr__(rec, "n", n)
+        return bool(sel.match(rec)) == exp
+
+    return check
+
+
 def programs(tier, seed):
     depth = 1 if tier == "quick" else 2
     preds = grammar.predicates(depth)
@@ -169,6 +227,9 @@ def obligations(tier, seed):
                     hunt_only=hunt,
                 )
             )
+    for i, text in enumerate(TYPED_PROGRAMS):
+        for eng in "ic":
+            obs.append(ob(f"typed/{eng}/{i}:{text}", "xh", "typed_diff", {"expr": text, "engine": eng}, timeout=to * 2, group=f"typed/{eng}", bounds="s: all strings <= 2 chars, n: all ints; other fields hold concrete typed values"))
     return obs
 
 
@@ -180,6 +241,28 @@ def replay(res):
     from flow.record.selector import CompiledSelector, Selector
 
     a = res["args"]
+    if "/typed/" in res["id"] or res["id"].split("/")[1] == "typed":
+        from flow.record import RecordDescriptor
+
+        v = cex_args(res, ["s", "n"])
+        cls = Selector if a["engine"] == "i" else CompiledSelector
+        D = RecordDescriptor("test/typed", TYPED_FIELDS)
+        for s_, n_ in [(v.get("s", ""), v.get("n", 0)), ("a", 3), ("", 0), ("h", 10)]:
+            vals = typed_values(s_, n_)
+            ns = selector_ref.namespace(vals, TYPED_FIELDS, "test/typed")
+            code, subs = selector_ref.compile_ref(a["expr"])
+            defined, exp = selector_ref.evaluate(code, subs, ns)
+            if not defined:
+                continue
+            rec = D(*[vals[k] for _, k in TYPED_FIELDS])
+            try:
+                got, raised = bool(cls(a["expr"]).match(rec)), None
+            except Exception as e:  # noqa: BLE001
+                got, raised = None, f"{type(e).__name__}: {e}"
+            if raised or got != exp:
+                return {"reproduced": True, "key": f"C07/typed/{a['engine']}/{a['expr']}", "what": f"{cls.__name__}({a['expr']!r}) on a record with ip=1.2.3.4, net=10.0.0.0/8, u='http://x/y', p='/a/b', tags=['a','b'], s={s_!r}, n={n_!r}: "
+                        + (f"raised {raised}" if raised else f"{got}") + f", Python meaning: {exp}", "input": {"expr": a["expr"], "s": s_, "n": n_}}
+        return {"reproduced": False, "what": "typed program agrees with the reference on the concrete values"}
     names = ["n", "m", "s", "t", "b", "o"]
     v = cex_args(res, names)
     if len(v) != len(names):
